@@ -166,7 +166,8 @@ fn main() {
             move |c: &HostileCase| check_hostile(&c3, c),
         )
         .shards(tier.pick(8, 16))
-        .shrink_iters(tier.pick(100, 400)),
+        // a "not answered" case costs minutes of real time per evaluation
+        .shrink_iters(tier.pick(100, 30)),
     );
     drain_infra(&mut ck, &ctx);
 
